@@ -155,7 +155,14 @@ func runC06(t *testing.T, sci interface{}, keepLog bool) *hx.Outcome {
 	maxSteps := 3000000
 
 	setup := func(s *simrt.Sim) {
-		restore = snowflake.VerifSetConfig(epochMs, sc.NodeBits, sc.AtLowest)
+		// the layout is installed through the package's own Setup options; the verif-tagged switch only provides the
+		// neutral starting point and the way back (Setup cannot turn node-at-lowest off again)
+		restore = snowflake.VerifSetConfig(0, 10, false)
+		opts := []snowflake.Option{snowflake.UseEpoch(time.UnixMilli(epochMs)), snowflake.UseNodeMode(snowflake.NodeBitsMode(sc.NodeBits))}
+		if sc.AtLowest {
+			opts = append(opts, snowflake.NodeAtLowest())
+		}
+		snowflake.Setup(opts...)
 		s.Clock = func(tk *simrt.Task) time.Time {
 			r := nextReading()
 			if tk != nil && (lastRead[tk] == 0 || r < lastRead[tk]) {
@@ -330,7 +337,7 @@ func TestC06(t *testing.T) {
 		NewScenario: func() interface{} { return &C06Scenario{} },
 		Run:         runC06,
 		Real:        []string{"idgen/snowflake HardNode, MonoNode, IDFields (simgen-transformed)", "idgen/nano.UnixNanoID and UnixNanoNoLockID (simgen-transformed)"},
-		Stubs:       []string{"time (simtime: every Now/Since is the next reading of a drawn clock program: stalls, backward and forward jumps, ticks)", "sync (simsync.Mutex)", "goroutine scheduling (simrt)", "snowflake layout installed through the verif-tagged VerifSetConfig"},
+		Stubs:       []string{"time (simtime: every Now/Since is the next reading of a drawn clock program: stalls, backward and forward jumps, ticks)", "sync (simsync.Mutex)", "goroutine scheduling (simrt)", "snowflake layout installed through snowflake.Setup (the verif-tagged VerifSetConfig provides the neutral start and the restore)"},
 		Rule: "scenario = generator (wall-clock node, monotonic node, unix-nano, lock-free unix-nano under the callers' own lock; unix-nano starting at 0 or one hour ahead of the clock) x layout (node bits 8/9/10, node-at-lowest, 3 epochs, node number at the edges; 1 in 12: a node number outside the layout, which the constructor must refuse) x clock program (1-6 segments of (delta, reads): 0, +-1ns..+-1h, +1y) x 1-3 phases of 1-4 concurrent callers (1-40 calls; 1 in 20 runs up to 4200 calls per caller to cross the 4096-step wrap) with optional restart from the last issued id x scheduler knobs/tape; " +
 			"non-trivial = >=3 calls; distinct = distinct event-log hash",
 		Probes: []string{"gen-hard", "gen-mono", "gen-nano", "gen-nanonl", "node-out-of-range-refused", "restart", "clock-went-backwards", "clock-stalled", "runs-crossing-step-wrap"},
